@@ -11,6 +11,8 @@
    Cells: [Uninit] = bytes malloc/realloc returned and nobody wrote; [Val n] = raw pattern of a scalar
    (int64 / double bits / pointer / u8 / bool byte); [Blob bs] = the bytes of a struct element.
 
+   The model describes the code after the repairs 9ae9f7a (nl_array_slice clamps length before adding), c3b7222
+   (dyn_array_clone of struct arrays) and aedede4 (elem_size is a uint32_t; its width is measured, [p_esize_mod]).
    Constants (INITIAL_CAPACITY, GROWTH_FACTOR, element sizes) are NOT written here: they are the
    fields of [params], instantiated by NV.gen.RtParams which tools/gen/gen_rtparams.py measures on the
    current dyn_array.c. *)
